@@ -1,9 +1,9 @@
 // c10: property C10 ("cloud-provider assign/unassign calls are well ordered per IP").
-//   * correspondence of the real plugin (recording provider that fails on demand) with the core Lean model through
+//   - correspondence of the real plugin (recording provider that fails on demand) with the core Lean model through
 //     gxdrv_plugin (results, provider logs per address, provider state, full digest after every step);
-//   * monitor: the REAL call log replayed through the per-IP state machine, bound live pods' addresses assigned to their
+//   - monitor: the REAL call log replayed through the per-IP state machine, bound live pods' addresses assigned to their
 //     node, every release / re-key preceded by an unassign;
-//   * histories: pods moving between three nodes of one subnet, old-pod events before / after the new pod's binding,
+//   - histories: pods moving between three nodes of one subnet, old-pod events before / after the new pod's binding,
 //     10 % clean provider failures with retries; thorough: all sequences <= 6 over one identity and two nodes.
 package main
 
@@ -51,6 +51,10 @@ func main() {
 		b2 := pluginc07.RunHistoriesWith(e, "C10", "x", e.N(500, 10000), pluginc07.C10Histories(p2), mon, plugin.Execute, pluginc07.CoreDriver)
 		b2.Fill(r)
 		lap("histories (two-address pods, retries on other nodes)")
+		if e.Thorough() {
+			pluginc07.ExhaustiveC10(e, r, "C10", mon, 8, 8*60)
+			lap("small-scope exhaustive")
+		}
 		return r
 	})
 }
